@@ -237,7 +237,8 @@ Proof.
     destruct sh0.
     + destruct (q_query_err q); [discriminate|]. injection Hp as <- <-. reflexivity.
     + destruct (q_query_err q); [discriminate|]. injection Hp as <- <-. reflexivity.
-    + destruct (11000 <? _) eqn:Ep in Hp; [discriminate|]. apply Z.ltb_ge in Ep.
+    + destruct (int64_limit <=? _) eqn:Ei in Hp; [discriminate|].
+      destruct (11000 <? _) eqn:Ep in Hp; [discriminate|]. apply Z.ltb_ge in Ep.
       destruct (q_query_err q); [discriminate|]. injection Hp as <- <-.
       unfold shape_guard, fix_guard. cbn [p_fix f_to f_from f_step f_dur].
       rewrite !andb_true_iff. split; [split; [split|]|].
@@ -245,7 +246,8 @@ Proof.
       * apply Z.ltb_lt. lia.
       * apply Z.leb_le. lia.
       * apply Z.leb_le. lia.
-    + destruct (11000 <? _) eqn:Ep in Hp; [discriminate|]. apply Z.ltb_ge in Ep.
+    + destruct (int64_limit <=? _) eqn:Ei in Hp; [discriminate|].
+      destruct (11000 <? _) eqn:Ep in Hp; [discriminate|]. apply Z.ltb_ge in Ep.
       destruct (100000 <? _) eqn:Ew in Hp; [discriminate|]. apply Z.ltb_ge in Ew.
       destruct (q_query_err q); [discriminate|]. injection Hp as <- <-.
       unfold shape_guard, fix_guard. cbn [p_fix p_slen f_to f_from f_step f_dur].
@@ -255,6 +257,26 @@ Proof.
       * apply Z.leb_le. lia.
       * apply Z.leb_le. lia.
       * apply Z.leb_le. lia.
+Qed.
+
+(* the window of an accepted matrix request fits int64 nanoseconds: _to - _from does not wrap around (fix 7e7939d) *)
+Definition is_matrix (sh : shape) : bool := match sh with ShRate | ShAggJson => true | _ => false end.
+Lemma plan_window_fits : forall sh0 q from_s to_s ms lim sh c, 0 < q_dur_s q ->
+  plan sh0 q from_s to_s ms lim = PRun sh c -> is_matrix sh = true ->
+  f_to (p_fix c) - f_from (p_fix c) < int64_limit.
+Proof.
+  intros sh0 q from_s to_s ms lim sh c Hd Hp Hm. unfold plan in Hp.
+  destruct (q_dur_s q <=? 0) eqn:Ed; [apply Z.leb_le in Ed; lia|].
+  cbv zeta in Hp. cbn [f_to f_from f_step] in Hp.
+  destruct sh0.
+  - destruct (q_query_err q); [discriminate|]. injection Hp as <- <-. discriminate.
+  - destruct (q_query_err q); [discriminate|]. injection Hp as <- <-. discriminate.
+  - destruct (int64_limit <=? _) eqn:Ei in Hp; [discriminate|]. apply Z.leb_gt in Ei.
+    destruct (max_points <? _) in Hp; [discriminate|].
+    destruct (q_query_err q); [discriminate|]. injection Hp as <- <-. cbn [p_fix f_to f_from]. exact Ei.
+  - destruct (int64_limit <=? _) eqn:Ei in Hp; [discriminate|]. apply Z.leb_gt in Ei.
+    destruct (max_points <? _) in Hp; [discriminate|]. destruct (max_windows <? _) in Hp; [discriminate|].
+    destruct (q_query_err q); [discriminate|]. injection Hp as <- <-. cbn [p_fix f_to f_from]. exact Ei.
 Qed.
 
 Lemma accepted_guard : forall q sh c, prelude_of q = PRun sh c -> shape_guard sh c = true.
@@ -456,3 +478,12 @@ Proof.
     - intros k. split; [apply enc_good|apply enc_nofault]. }
   intros a _. apply H.
 Qed.
+
+(* hypotheses of plan_window_fits are met by the typical request; a window of 317 years is refused although its number
+   of points (10) is below the cap *)
+Example window_fits_nontrivial :
+  (exists c, plan ShRate (typical_request ShRate) 1700000040 1700000340 15000 0 = PRun ShRate c) /\
+  is_matrix ShRate = true /\ 0 < q_dur_s (typical_request ShRate) /\
+  plan ShRate (typical_request ShRate) (-5000000000) 5000000000 1000000000000 0 = PResp O5xx /\
+  Z.quot ((5000000000 - -5000000000) * 1000000000) (1000000000000 * 1000000) = 10.
+Proof. split; [eexists; vm_compute; reflexivity|]. vm_compute. auto. Qed.
